@@ -31,15 +31,10 @@ impl<'js> IntoJs<'js> for ActValue {
             serde_json::Value::Null => JsValue::new_null(ctx.clone()),
             serde_json::Value::Bool(v) => JsValue::new_bool(ctx.clone(), v),
             serde_json::Value::Number(v) => {
-                if v.is_i64() {
-                    let v = v.as_i64().unwrap_or_default() as i32;
-                    JsValue::new_int(ctx.clone(), v)
-                } else if v.is_f64() {
-                    let v = v.as_f64().unwrap_or_default();
-                    JsValue::new_float(ctx.clone(), v)
-                } else {
-                    let v = v.as_i64().unwrap_or_default() as i32;
-                    JsValue::new_int(ctx.clone(), v)
+                match v.as_i64().and_then(|v| i32::try_from(v).ok()) {
+                    Some(v) => JsValue::new_int(ctx.clone(), v),
+                    // beyond 32 bits a js number is a double
+                    None => JsValue::new_float(ctx.clone(), v.as_f64().unwrap_or_default()),
                 }
             }
             serde_json::Value::String(v) => {
@@ -76,7 +71,15 @@ impl<'js> FromJs<'js> for ActValue {
             }
             rquickjs::Type::Bool => Ok(serde_json::json!(v.as_bool().unwrap_or(false))),
             rquickjs::Type::Int => Ok(serde_json::json!(v.as_int().unwrap_or(0))),
-            rquickjs::Type::Float => Ok(serde_json::json!(v.as_float().unwrap_or(0.0))),
+            rquickjs::Type::Float => {
+                let f = v.as_float().unwrap_or(0.0);
+                // an integer that js holds as a double goes back as an integer
+                if f.fract() == 0.0 && f.abs() <= 9_007_199_254_740_992.0 {
+                    Ok(serde_json::json!(f as i64))
+                } else {
+                    Ok(serde_json::json!(f))
+                }
+            }
             rquickjs::Type::String => Ok(serde_json::json!(
                 v.as_string()
                     .unwrap()
